@@ -132,7 +132,7 @@ fn repeat_family(out: &mut Vec<Case>, rng: &mut Rng) {
     }
 }
 
-/// finding F9: the AsyncCancel SQE is dropped when the submission queue is full
+/// regression family of finding F9 (repaired): the AsyncCancel SQE used to be dropped when the submission queue was full
 fn f9_family(out: &mut Vec<Case>, rng: &mut Rng) {
     for cap in [1u32, 2, 4] {
         for route in ROUTES {
